@@ -105,6 +105,11 @@ def make_cfg(rng, i):
     # fields in small or large physical units (the feedback matrix is dimensionless: its eigen-pairs do not depend on the units)
     cfg["units"] = float(10.0 ** rng.integers(-8, 7)) if rng.random() < 0.35 else 1.0
     X = X * cfg["units"]
+    if cfg["kind"] == "rednoise" and not cfg["use_pca"] and not cfg["standardize"] and p >= 3 and rng.random() < 0.5:
+        # features in very different units analysed jointly (a pressure in Pa next to a mixing ratio in kg/kg): amplitudes six orders of magnitude
+        # apart, well conditioned in double precision; every degree of freedom is retained
+        X = X * np.where(np.arange(p) % 2 == 0, 1e3, 1e-3)
+        cfg["mixed_units"] = True
     cfg["history"] = int(rng.integers(1, 1 << 30)) if rng.random() < 0.3 else 0
     cfg["layout"] = "x"
     if p % 2 == 0 and p >= 4 and rng.random() < 0.4:
